@@ -21,13 +21,20 @@ type c20World struct {
 	processing   int // requests the worker is processing right now
 	retiring     int // retirements of an old generation still running
 	maxOpen      int
+	busyWrites   int
 }
 
 func c20Setup() *c20World {
 	w := &c20World{code: consts.ReloadDone}
 	beginReloadProxyFailureSuppression = func() { w.begins++ }
 	endReloadProxyFailureSuppression = func() { w.ends++ }
-	setRunSignalProgress = func(code byte, content string) error { w.code, w.msg = code, content; return nil }
+	setRunSignalProgress = func(code byte, content string) error {
+		if code == consts.ReloadBusy {
+			w.busyWrites++
+		}
+		w.code, w.msg = code, content
+		return nil
+	}
 	getRunSignalProgress = func() (byte, string, error) { return w.code, w.msg, nil }
 	w.m = newReloadManager(make(chan reloadRequest, 1), make(chan struct{}, 1), nil)
 	return w
@@ -38,7 +45,7 @@ func (w *c20World) open() int { return w.begins - w.ends }
 
 // signal is what the main loop does on SIGUSR1 / SIGUSR2.
 func (w *c20World) signal(suspend bool) {
-	openBefore, queuedBefore := w.open(), len(w.m.reloadReqs)
+	openBefore, queuedBefore, busyBefore := w.open(), len(w.m.reloadReqs), w.busyWrites
 	ok := w.m.queueReloadRequest(nil, reloadRequest{isSuspend: suspend})
 	if ok {
 		w.accepted++
@@ -47,7 +54,8 @@ func (w *c20World) signal(suspend bool) {
 		vs.Assert("a request is accepted only when no reload, suspend or retirement is in progress", w.processing == 0 && w.retiring == 0)
 	} else {
 		w.refused++
-		vs.Assert("a refused request is reported as busy", w.code == consts.ReloadBusy)
+		// (the worker's own status writes may follow at once, so the report is counted, not re-read)
+		vs.Assert("a refused request is reported as busy", w.busyWrites > busyBefore)
 		vs.Assert("a refused request does not touch the queue", len(w.m.reloadReqs) == queuedBefore || len(w.m.reloadReqs) == queuedBefore-1)
 		vs.Assert("a refused request leaves the muting as it was", w.open() <= openBefore)
 	}
@@ -70,6 +78,9 @@ func (w *c20World) worker(exits int) {
 		vs.Assert("one request is processed at a time", w.processing == 1)
 		_ = setRunSignalProgress(consts.ReloadProcessing, "")
 		exit := vs.IntRange("exit"+strconv.Itoa(n), 0, exits-1)
+		if exits == 3 && exit >= 1 {
+			exit++ // quick tier: the late-failure exit (same release path as the early one) is left to thorough
+		}
 		n++
 		w.processing--
 		switch exit {
@@ -110,15 +121,26 @@ func Verif_C20_protocol() {
 	}
 	vs.Schedules(pre)
 	w := c20Setup()
-	go w.worker(4)
+	exits := 3
+	if vs.Thorough() {
+		exits = 4
+	}
+	go w.worker(exits)
 	go func() {
 		w.signal(vs.Choice("sig0.suspend", 2) == 1)
+		vs.Yield() // signals arrive at arbitrary times: the worker may get anywhere before the next one
 		w.signal(false)
-		w.signal(false)
+		if vs.Thorough() {
+			vs.Yield()
+			w.signal(false)
+		}
 	}()
 	vs.Join()
 	vs.Assert("muting lifted once everything has settled", w.open() == 0)
 	vs.Assert("pending flag released once everything has settled", !w.m.reloadPending.Load() && !w.m.reloadActive.Load())
+	// `dae reload` refuses to signal while the progress file says busy: a busy report that outlives
+	// the reload it was written for would leave the command line wedged
+	vs.Assert("no busy report is left behind once everything has settled", w.code != consts.ReloadBusy)
 	vs.Assert("every accepted request was taken by the worker", len(w.m.reloadReqs) == 0)
 	// dae accepts a new request again
 	ok := w.m.queueReloadRequest(nil, reloadRequest{})
